@@ -1,6 +1,6 @@
 (* C17 — shape of the generated cases and the two executable verdicts. No proofs. *)
 From VLib Require Import CaseLib.
-From C17 Require Import Model.
+From C17 Require Import Model ModelSeal.
 
 Definition N_list_eqb := list_eqb N.eqb.
 Definition nat_list_eqb := list_eqb Nat.eqb.
@@ -217,6 +217,80 @@ Definition dump_spec_ok (k : list (meta * N)) (d : dump) : bool :=
   && forallb (fun i => match lookup_pos i (d_pos d) with Some _ => true | None => false end) ids
   && forallb (fun p => mem_id (fst p) ids) (d_pos d).
 
+(* ------------------------------------------------------------------ histories with seal, reload and replay modelled *)
+
+(* tables of a sealed fraction as the export hook reads them through the sealed loaders *)
+Record sdump := mkSDump {
+  sd_ids : list id;                (* LID -> ID *)
+  sd_pos : list (option pos);      (* LID -> DocPos, None = DocPosNotFound *)
+  sd_tok : list (N * list nat);    (* every token of the table -> LIDs, ascending *)
+  sd_nblocks : nat; sd_total : N; sd_from : N; sd_to : N
+}.
+
+Inductive fdump := DActive (d : dump) | DSealed (d : sdump).
+
+Definition sealed_agrees (s : sealed) (d : sdump) : bool :=
+  id_list_eqb (s_ids s) (sd_ids d)
+  && list_eqb (option_eqb pos_eqb) (s_pos s) (sd_pos d)
+  && forallb (fun p => nat_list_eqb (snd p) (stok_lids s (fst p))) (sd_tok d)
+  && Nat.eqb (sd_nblocks d) (length (s_blocks s))
+  && N.eqb (sd_total d) (s_total s) && N.eqb (sd_from d) (s_from s) && N.eqb (sd_to d) (s_to s).
+
+Definition fdump_agrees (f : frac) (d : fdump) : bool :=
+  match f, d with
+  | FA a _, DActive d => dump_agrees a d
+  | FS s, DSealed d => sealed_agrees s d
+  | _, _ => false
+  end.
+
+Definition frac_view (f : frac) : active :=
+  match f with FA a _ => uniq_tok a | FS s => sealed_view s end.
+
+Definition obs_agrees2 (gt : list N) (s : store2) (o : obsv) : bool :=
+  let fr := nonempty2 s in
+  list_eqb N.eqb (map frac_total fr) (ob_totals o)
+  && forallb (fun p => option_eqb N.eqb (fetch_store2 s (fst p)) (snd p)) (ob_fetch o)
+  && match fr with
+     | [f] => forallb (fun p => qres_eqb (search_frac hist_iv gt (frac_view f) (fst p)) (snd p)) (ob_q o)
+     | _ => forallb (fun p => id_list_eqb (search_ids (map frac_view s) (fst p)) (q_ids (snd p))) (ob_q o)
+     end.
+
+(* --- set-semantics reference for the sealed tables, from the first deliveries k of the fraction:
+   the LID table is the system entry followed by the IDs of the first deliveries, newest first
+   (every meta once); DocsTotal counts them once; From/To span them; every token's LIDs are
+   distinct and resolve to exactly the first deliveries carrying it; every LID has a position,
+   and two LIDs share a position exactly when they carry the same ID *)
+Definition sdump_spec_ok (k : list (meta * N)) (d : sdump) : bool :=
+  let ids := map (fun p => m_id (fst p)) k in
+  let n := length (sd_ids d) in
+  id_list_eqb (sd_ids d) (sys_id :: sort_desc ids)
+  && N.eqb (sd_total d) (N.of_nat (length k))
+  && N.eqb (sd_from d) (fold_left (fun a i => N.min a (fst i)) ids max_u64)
+  && N.eqb (sd_to d) (fold_left (fun a i => N.max a (fst i)) ids 0%N)
+  && forallb (fun p =>
+       is_nodup_nat (snd p) && forallb (fun l => Nat.ltb 0 l && Nat.ltb l n) (snd p)
+       && id_list_eqb (sort_desc (map (fun l => nth l (sd_ids d) sys_id) (snd p)))
+                      (sort_desc (map (fun q => m_id (fst q)) (filter (fun q => has_tokN (fst p) (m_toks (fst q))) k))))
+       (sd_tok d)
+  && Nat.eqb (length (sd_pos d)) n
+  && forallb (fun l1 =>
+       match nth l1 (sd_pos d) None with
+       | None => false
+       | Some p1 => forallb (fun l2 =>
+           match nth l2 (sd_pos d) None with
+           | None => false
+           | Some p2 => Bool.eqb (id_eqb (nth l1 (sd_ids d) sys_id) (nth l2 (sd_ids d) sys_id)) (pos_eqb p1 p2)
+           end) (seq 1 (n - 1))
+       end) (seq 1 (n - 1)).
+
+Definition fdump_spec_ok (k : list (meta * N)) (d : fdump) : bool :=
+  match d with
+  | DActive d => dump_spec_ok k d
+             && N.eqb (d_from d) (fold_left (fun a p => N.min a (fst (m_id (fst p)))) k max_u64)
+             && N.eqb (d_to d) (fold_left (fun a p => N.max a (fst (m_id (fst p)))) k 0%N)
+  | DSealed d => sdump_spec_ok k d
+  end.
+
 Definition group_toks : list N := [5; 6; 7; 9]%N.   (* tokens of the group field g in the harness table *)
 
 Inductive case :=
@@ -224,7 +298,11 @@ Inductive case :=
 | CColl (blk : nat) (ms : list meta) (dofilter : bool) (app : list id) (first : nat) (impl : collout)
 (* history through the real store: optional dump of the active fraction after [fst dmp] steps,
    observations after the given numbers of steps *)
-| CHist (h : list step) (dmp : option (nat * dump)) (obs : list (nat * obsv)).
+| CHist (h : list step) (dmp : option (nat * dump)) (obs : list (nat * obsv))
+(* history through the real store with seal, reload and replay predicted by the model
+   (ModelSeal.run_store2): dumps = (after k steps, index j among the fractions holding documents,
+   copy of that fraction's tables), observations after the given numbers of steps *)
+| CHist2 (cfg : sealcfg) (h : list step) (dumps : list (nat * nat * fdump)) (obs : list (nat * obsv)).
 
 Definition case_agrees (c : case) : bool :=
   match c with
@@ -236,6 +314,10 @@ Definition case_agrees (c : case) : bool :=
       | Some (k, d) => dump_agrees (last_frac (run_store (firstn k h))) d
       end
       && forallb (fun p => obs_agrees group_toks (run_store (firstn (fst p) h)) (snd p)) obs
+  | CHist2 cfg h dumps obs =>
+      forallb (fun x => fdump_agrees (nth (snd (fst x)) (nonempty2 (run_store2 cfg (firstn (fst (fst x)) h)))
+                                          (FA active_empty [])) (snd x)) dumps
+      && forallb (fun p => obs_agrees2 group_toks (run_store2 cfg (firstn (fst p) h)) (snd p)) obs
   end.
 
 Definition case_spec_ok (c : case) : bool :=
@@ -248,6 +330,9 @@ Definition case_spec_ok (c : case) : bool :=
       | None => true
       | Some (k, d) => dump_spec_ok (ref_cur (firstn k h)) d
       end
+      && forallb (fun p => obs_spec_ok group_toks (ref_run (firstn (fst p) h)) (snd p)) obs
+  | CHist2 cfg h dumps obs =>
+      forallb (fun x => fdump_spec_ok (nth (snd (fst x)) (ref_run (firstn (fst (fst x)) h)) []) (snd x)) dumps
       && forallb (fun p => obs_spec_ok group_toks (ref_run (firstn (fst p) h)) (snd p)) obs
   end.
 
